@@ -34,6 +34,8 @@ pub struct SubInst {
     /// retained messages (indexes) that must be replayed for this new subscription
     pub retained_due: Vec<u32>,
     pub retained_seen: Vec<u32>,
+    /// replays that may be repeated on the current connection (see `end_connection`)
+    pub retained_repeat: Vec<u32>,
     pub replay_retained: bool,
     /// position in `expect` from which delivery (re)starts on the current connection
     pub restart: u32,
@@ -72,10 +74,17 @@ pub struct CModel {
     /// possible attributions of the forwards seen on this connection to subscriptions:
     /// each entry is a vector of positions, one per subscription instance
     pub frontier: Vec<Vec<u32>>,
+    /// attribution of forwards to subscriptions was given up on this connection
+    pub waived: bool,
     pub replies_expected: VecDeque<Rx>,
     /// replies owed when the connection was closed: they may still be in the link's
     /// buffer and arrive, or not
     pub replies_optional: VecDeque<Rx>,
+    /// PUBRELs the broker owes for PUBRECs it consumed (no statement orders them against
+    /// the replies to requests)
+    pub rels_expected: Vec<u16>,
+    /// filters of the SUBSCRIBEs whose SUBACK has not arrived: (packet id, filters)
+    pub sub_requests: VecDeque<(u16, Vec<String>)>,
     pub q2_recorded: VecDeque<u32>,
     /// QoS>0 forwards received and not yet acknowledged (ack consumed by the router):
     /// (pkid, subscription index if unambiguous, position in its expect list)
@@ -112,7 +121,10 @@ pub struct GMsg {
     pub members_at_accept: Vec<(usize, u32)>,
 }
 
+#[derive(Clone)]
 pub struct Model {
+    /// state before the packet announced by `Tx::Doubt` (a broker may refuse to process it)
+    pub doubt: Option<Box<Model>>,
     pub prop: String,
     pub variant: u8,
     pub accepted: Vec<Msg>,
@@ -139,6 +151,9 @@ pub struct Model {
     pub persistent_shared_left: bool,
 }
 
+/// marks an outstanding forward that more than one subscription explains
+const AMBIGUOUS: u32 = u32::MAX;
+
 pub fn split_share(filter: &str) -> (Option<String>, String) {
     if let Some(rest) = filter.strip_prefix("$share/") {
         if let Some((g, f)) = rest.split_once('/') {
@@ -152,6 +167,7 @@ impl Model {
     pub fn new(cfg: &Cfg) -> Model {
         let p = cfg.prop.as_str();
         Model {
+            doubt: None,
             prop: cfg.prop.clone(),
             variant: cfg.variant,
             accepted: vec![],
@@ -236,6 +252,8 @@ impl Model {
             c.epoch += 1;
             c.replies_expected.clear();
             c.replies_optional.clear();
+            c.rels_expected.clear();
+            c.sub_requests.clear();
             c.outstanding.clear();
             c.q2_recorded.clear();
             c.alias_in.clear();
@@ -248,13 +266,11 @@ impl Model {
             let c = &mut self.clients[ci];
             c.rel_outstanding.clear();
             c.had_session = false;
+            c.waived = false;
         } else {
             // the broker re-sends the releases the client has not completed
             let c = &mut self.clients[ci];
-            let rels: Vec<u16> = c.rel_outstanding.iter().cloned().collect();
-            for id in rels {
-                c.replies_expected.push_back(Rx::PubRel(id));
-            }
+            c.rels_expected = c.rel_outstanding.iter().cloned().collect();
         }
         let c = &mut self.clients[ci];
         // attribution starts afresh on every connection, from the restart points
@@ -323,6 +339,9 @@ impl Model {
             c.registered = false;
             let owed: Vec<Rx> = c.replies_expected.drain(..).collect();
             c.replies_optional.extend(owed);
+            let rels: Vec<u16> = c.rels_expected.drain(..).collect();
+            c.replies_optional.extend(rels.into_iter().map(Rx::PubRel));
+            c.sub_requests.clear();
             c.q2_recorded.clear();
         }
         if clean {
@@ -341,9 +360,17 @@ impl Model {
             let delivered: Vec<u32> = (0..c.subs.len())
                 .map(|j| c.frontier.iter().map(|p| p[j]).min().unwrap_or(0))
                 .collect();
+            let unacked = !c.outstanding.is_empty();
+            if c.outstanding.iter().any(|(_, a)| matches!(a, Some((AMBIGUOUS, _)))) {
+                // an unacknowledged forward that several overlapping subscriptions explain:
+                // from which message each of them restarts cannot be told, so what this
+                // session is sent from here on is not judged
+                c.waived = true;
+            }
             for (j, s) in c.subs.iter_mut().enumerate() {
                 // nothing emitted before a repeated SUBSCRIBE outlives the connection
                 s.old_ok.clear();
+                s.retained_repeat = if unacked && s.qos > 0 { s.retained_seen.clone() } else { vec![] };
                 if !s.active {
                     continue;
                 }
@@ -434,8 +461,13 @@ impl Model {
         self.accepted.push(m);
     }
 
-    /// the router consumed packet `tx` from client `ci`
-    pub fn consumed(&mut self, ci: usize, tx: &Tx) {
+    /// The router consumed packet `tx` from client `ci`. `self` follows what this broker is
+    /// known to do; the returned models follow the other outcomes that no statement rules
+    /// out for a client that misbehaves (ignore the packet and go on, answer it, close).
+    /// Whichever of them keeps explaining what is observed stays (see `Models`).
+    pub fn consumed(&mut self, ci: usize, tx: &Tx) -> Vec<Model> {
+        // only C09 says what an unsolicited acknowledgement does to the connection
+        let strict_unsolicited = self.prop == "C09";
         match tx {
             Tx::Publish {
                 topic,
@@ -454,8 +486,10 @@ impl Model {
                         match self.clients[ci].alias_in.get(&a) {
                             Some(t) => topic = t.clone(),
                             None => {
+                                // (a QoS 0 publish that cannot be routed may also just be dropped)
+                                let alts = if *qos == 0 { vec![self.clone()] } else { vec![] };
                                 self.closing(ci);
-                                return;
+                                return alts;
                             }
                         }
                     } else {
@@ -492,7 +526,14 @@ impl Model {
                     let m = self.held[h as usize].clone();
                     self.accept(m);
                 }
-                None => self.closing(ci),
+                None => {
+                    // a release for nothing recorded: this broker closes; completing it
+                    // (PUBCOMP, as MQTT describes for an unknown id) is the other answer
+                    let mut alt = self.clone();
+                    alt.clients[ci].replies_expected.push_back(Rx::PubComp(*pkid));
+                    self.closing(ci);
+                    return vec![alt];
+                }
             },
             Tx::Subscribe { pkid, filters, sub_id } => {
                 let mut codes = vec![];
@@ -506,29 +547,11 @@ impl Model {
                     }
                 }
                 self.clients[ci].replies_expected.push_back(Rx::SubAck { pkid: *pkid, codes });
+                self.clients[ci].sub_requests.push_back((*pkid, filters.iter().map(|(f, _)| f.clone()).collect()));
             }
             Tx::Unsubscribe { pkid, filters } => {
                 for f in filters {
-                    let mut left: Vec<String> = vec![];
-                    let now = self.accepted.len() as u32;
-                    for s in self.clients[ci].subs.iter_mut() {
-                        if s.active && s.filter == *f {
-                            s.active = false;
-                            s.closed_at = Some(now);
-                            if let Some(g) = &s.group {
-                                left.push(g.clone());
-                            }
-                        }
-                    }
-                    for g in left {
-                        let still = self.clients[ci]
-                            .subs
-                            .iter()
-                            .any(|s| s.active && s.group.as_deref() == Some(g.as_str()));
-                        if !still {
-                            self.leave_group(&g, ci);
-                        }
-                    }
+                    self.unsubscribe(ci, f);
                 }
                 self.clients[ci].replies_expected.push_back(Rx::UnsubAck { pkid: *pkid });
             }
@@ -538,7 +561,21 @@ impl Model {
                 if c.outstanding.front().map(|e| e.0) == Some(*id) {
                     c.outstanding.pop_front();
                 } else {
+                    // This broker closes. An acknowledgement of a forward that is outstanding,
+                    // but not the oldest, may also be taken; one that was never solicited may be
+                    // ignored (except under C09, which says it closes the connection).
+                    let mut alts = vec![];
+                    match c.outstanding.iter().position(|e| e.0 == *id) {
+                        Some(p) => {
+                            let mut alt = self.clone();
+                            alt.clients[ci].outstanding.remove(p);
+                            alts.push(alt);
+                        }
+                        None if !strict_unsolicited => alts.push(self.clone()),
+                        None => {}
+                    }
                     self.closing(ci);
+                    return alts;
                 }
             }
             Tx::PubRec(id) => {
@@ -546,9 +583,23 @@ impl Model {
                 if c.outstanding.front().map(|e| e.0) == Some(*id) {
                     c.outstanding.pop_front();
                     c.rel_outstanding.push_back(*id);
-                    c.replies_expected.push_back(Rx::PubRel(*id));
+                    c.rels_expected.push(*id);
                 } else {
+                    let mut alts = vec![];
+                    match c.outstanding.iter().position(|e| e.0 == *id) {
+                        Some(p) => {
+                            let mut alt = self.clone();
+                            let ac = &mut alt.clients[ci];
+                            ac.outstanding.remove(p);
+                            ac.rel_outstanding.push_back(*id);
+                            ac.rels_expected.push(*id);
+                            alts.push(alt);
+                        }
+                        None if !strict_unsolicited => alts.push(self.clone()),
+                        None => {}
+                    }
                     self.closing(ci);
+                    return alts;
                 }
             }
             Tx::PubComp(id) => {
@@ -556,7 +607,18 @@ impl Model {
                 if c.rel_outstanding.front() == Some(id) {
                     c.rel_outstanding.pop_front();
                 } else {
+                    let mut alts = vec![];
+                    match c.rel_outstanding.iter().position(|e| e == id) {
+                        Some(p) => {
+                            let mut alt = self.clone();
+                            alt.clients[ci].rel_outstanding.remove(p);
+                            alts.push(alt);
+                        }
+                        None if !strict_unsolicited => alts.push(self.clone()),
+                        None => {}
+                    }
                     self.closing(ci);
+                    return alts;
                 }
             }
             Tx::Disconnect => {
@@ -565,7 +627,59 @@ impl Model {
                 self.end_connection(ci);
             }
             Tx::Raw(_) => {}
-            Tx::CloseMark => self.closing(ci),
+            Tx::Doubt => {
+                let mut snap = self.clone();
+                snap.doubt = None;
+                self.doubt = Some(Box::new(snap));
+            }
+            Tx::CloseMark => {
+                // this broker closes for the packet before the marker; a broker that
+                // processes it, or refuses it, and keeps the connection is not ruled out
+                let refused = self.doubt.take();
+                let mut alts = vec![self.clone()];
+                if let Some(b) = refused {
+                    alts.push(*b);
+                }
+                self.closing(ci);
+                return alts;
+            }
+            Tx::MayClose => {
+                // this broker goes on after the packet before the marker; one that refuses
+                // it, or closes the connection for it, is not ruled out
+                let refused = self.doubt.take();
+                let mut alt = self.clone();
+                alt.closing(ci);
+                let mut alts = vec![alt];
+                if let Some(b) = refused {
+                    alts.push(*b);
+                }
+                return alts;
+            }
+        }
+        vec![]
+    }
+
+    /// the subscription of `ci` for `f` ends (UNSUBSCRIBE, or a SUBACK that refuses the filter)
+    fn unsubscribe(&mut self, ci: usize, f: &str) {
+        let mut left: Vec<String> = vec![];
+        let now = self.accepted.len() as u32;
+        for s in self.clients[ci].subs.iter_mut() {
+            if s.active && s.filter == f {
+                s.active = false;
+                s.closed_at = Some(now);
+                if let Some(g) = &s.group {
+                    left.push(g.clone());
+                }
+            }
+        }
+        for g in left {
+            let still = self.clients[ci]
+                .subs
+                .iter()
+                .any(|s| s.active && s.group.as_deref() == Some(g.as_str()));
+            if !still {
+                self.leave_group(&g, ci);
+            }
         }
     }
 
@@ -618,6 +732,7 @@ impl Model {
             lagged: false,
             retained_due,
             retained_seen: vec![],
+            retained_repeat: vec![],
             replay_retained: replay,
             restart: 0,
             skip_to: 0,
@@ -673,13 +788,56 @@ impl Model {
 
     fn reply(&mut self, ci: usize, rx: &Rx) {
         let check = self.check_replies;
+        // one code per requested filter; which QoS it grants, or whether it refuses the
+        // filter, is the broker's to say
+        fn same_reply(e: &Rx, rx: &Rx) -> bool {
+            match (e, rx) {
+                (Rx::SubAck { pkid: a, codes: ca }, Rx::SubAck { pkid: b, codes: cb }) => {
+                    a == b && ca.len() == cb.len() && ca.iter().zip(cb.iter()).all(|(want, got)| got == want || got < want || *got >= 0x80)
+                }
+                _ => e == rx,
+            }
+        }
+        if let Rx::PubRel(id) = rx {
+            let c = &mut self.clients[ci];
+            if let Some(p) = c.rels_expected.iter().position(|e| e == id) {
+                c.rels_expected.remove(p);
+            } else if let Some(p) = c.replies_optional.iter().position(|e| e == rx) {
+                c.replies_optional.drain(..=p);
+            } else {
+                let d = format!("{} received PUBREL {id} for which it sent no PUBREC (owed: {:?})", super::NAMES[ci], c.rels_expected);
+                self.v("unexpected_release", d);
+            }
+            return;
+        }
+        if let (Rx::SubAck { pkid, codes }, Some(e)) = (rx, self.clients[ci].replies_expected.front().cloned()) {
+            if same_reply(&e, rx) {
+                // the grant is what the SUBACK says
+                let filters = {
+                    let c = &mut self.clients[ci];
+                    let p = c.sub_requests.iter().position(|(id, _)| id == pkid);
+                    p.and_then(|p| c.sub_requests.remove(p)).map(|(_, f)| f).unwrap_or_default()
+                };
+                let want = if let Rx::SubAck { codes, .. } = &e { codes.clone() } else { vec![] };
+                for ((f, got), want) in filters.iter().zip(codes.iter()).zip(want.iter()) {
+                    if got == want {
+                        continue;
+                    }
+                    if *got >= 0x80 {
+                        self.unsubscribe(ci, f);
+                    } else if let Some(s) = self.clients[ci].subs.iter_mut().find(|s| s.active && s.filter == *f) {
+                        s.qos = *got;
+                    }
+                }
+            }
+        }
         let c = &mut self.clients[ci];
         match c.replies_expected.front() {
-            Some(e) if e == rx => {
+            Some(e) if same_reply(e, rx) => {
                 c.replies_expected.pop_front();
             }
             other => {
-                if let Some(p) = c.replies_optional.iter().position(|e| e == rx) {
+                if let Some(p) = c.replies_optional.iter().position(|e| same_reply(e, rx)) {
                     // owed before the connection was closed; everything older is skipped
                     c.replies_optional.drain(..=p);
                     return;
@@ -693,7 +851,7 @@ impl Model {
                         c.replies_expected
                     );
                     self.v("unexpected_reply", d);
-                } else if let Some(p) = c.replies_expected.iter().position(|e| e == rx) {
+                } else if let Some(p) = c.replies_expected.iter().position(|e| same_reply(e, rx)) {
                     c.replies_expected.remove(p);
                 }
             }
@@ -758,7 +916,9 @@ impl Model {
             for (j, s) in self.clients[ci].subs.iter().enumerate() {
                 // (a subscription that has ended in the meantime may still get the replay
                 // that was already on its way)
-                if !(s.replay_retained && s.qos == qos) {
+                // (no statement fixes the QoS of a replay: MQTT sends it at the lower of the
+                // stored message's QoS and the grant, this broker at the grant)
+                if !(s.replay_retained && (qos <= s.qos || s.serves(qos))) {
                     continue;
                 }
                 for m in s.retained_due.iter() {
@@ -780,7 +940,7 @@ impl Model {
                 let cur = self.retained.get(topic).cloned();
                 for (j, s) in self.clients[ci].subs.iter().enumerate() {
                     let fresh = self.clients[ci].frontier.iter().all(|p| p[j] == s.restart);
-                    if s.replay_retained && s.qos == qos && fresh && ref_matches(topic, &s.match_filter) {
+                    if s.replay_retained && qos <= s.qos && fresh && ref_matches(topic, &s.match_filter) {
                         if let Some(m) = cur {
                             if !s.retained_seen.contains(&m) && self.content_is(m, topic, payload) {
                                 hit = Some((j, m));
@@ -795,6 +955,17 @@ impl Model {
                 ok = true;
             }
             if !ok {
+                // a replay that was unacknowledged when the previous connection of this
+                // session ended may be sent again (C08 leaves replays out of its claim)
+                let again = self.clients[ci].subs.iter().enumerate().find_map(|(j, s)| {
+                    s.retained_repeat.iter().position(|m| self.content_is(*m, topic, payload)).map(|p| (j, p))
+                });
+                if let Some((j, p)) = again {
+                    self.clients[ci].subs[j].retained_repeat.remove(p);
+                    ok = true;
+                }
+            }
+            if !ok {
                 let d = format!(
                     "{name} received {topic} ({:?}) flagged retained, but no new subscription of it is owed that replay",
                     String::from_utf8_lossy(payload)
@@ -804,6 +975,17 @@ impl Model {
             return;
         }
         // ---- live forward through a plain subscription: must extend some attribution
+        // Only C01 says at which QoS a message is forwarded (the granted one). For the other
+        // statements a forward at another QoS is attributed all the same when no
+        // subscription explains it at its own QoS.
+        if self.clients[ci].waived {
+            if window_slot {
+                self.push_outstanding(ci, pkid, None);
+            }
+            return;
+        }
+        let passes: &[bool] = if self.prop == "C01" { &[false] } else { &[false, true] };
+        for &any_qos in passes {
         let mut next: Vec<Vec<u32>> = vec![];
         let mut attr: Option<(u32, u32)> = None;
         let mut n_attr = 0;
@@ -812,7 +994,7 @@ impl Model {
             let mut seen: HashSet<Vec<u32>> = HashSet::new();
             for pos in c.frontier.iter() {
                 for (j, s) in c.subs.iter().enumerate() {
-                    if s.group.is_some() || !s.serves(qos) {
+                    if s.group.is_some() || !(any_qos || s.serves(qos)) {
                         continue;
                     }
                     let p = pos[j];
@@ -856,12 +1038,17 @@ impl Model {
             }
         }
         if !next.is_empty() {
-            if next.len() > 64 {
-                next.truncate(64);
+            if next.len() > 1024 {
+                // too many ways to attribute what this client has received to its overlapping
+                // subscriptions: dropping some could drop the true one, so its forwards are
+                // no longer judged on this connection
+                next.truncate(1);
+                self.clients[ci].waived = true;
             }
             self.clients[ci].frontier = next;
             if window_slot {
-                self.push_outstanding(ci, pkid, if n_attr == 1 { attr } else { None });
+                // (several subscriptions explain it: remembered as such, see `end_connection`)
+                self.push_outstanding(ci, pkid, if n_attr == 1 { attr } else { Some((AMBIGUOUS, 0)) });
             }
             if self.check_props {
                 self.check_forward_props(ci, attr, props);
@@ -882,7 +1069,7 @@ impl Model {
             .iter()
             .find(|s| {
                 s.group.is_some()
-                    && s.serves(qos)
+                    && (any_qos || s.serves(qos))
                     && ref_matches(topic, &s.match_filter)
                     && (s.active || newest_undelivered.is_some_and(|i| s.closed_at.is_some_and(|c| i < c)))
             })
@@ -893,6 +1080,7 @@ impl Model {
             }
             self.shared_forward(ci, &g, topic, payload);
             return;
+        }
         }
         if window_slot {
             self.push_outstanding(ci, pkid, None);
@@ -1053,7 +1241,13 @@ impl Model {
                     format!("{} is still owed {:?} after the broker went idle", super::NAMES[ci], c.replies_expected),
                 ));
             }
-            if self.check_forwards {
+            if !c.rels_expected.is_empty() {
+                out.push((
+                    "release_missing".into(),
+                    format!("{} acknowledged QoS 2 forwards with PUBREC {:?} and got no PUBREL for them although the broker went idle", super::NAMES[ci], c.rels_expected),
+                ));
+            }
+            if self.check_forwards && !c.waived {
                 let complete = c.frontier.iter().any(|pos| {
                     c.subs.iter().enumerate().all(|(j, s)| {
                         !s.active || s.group.is_some() || s.lagged || pos[j] as usize == s.expect.len()
